@@ -39,7 +39,8 @@ PARTIAL = []
 
 def harness_specs(tier):
     return ([dict(name='h_c14_probe', src='h_c14_probe.cpp', flavour='fast')] +
-            [dict(name='h_c14_ext%d' % g, src='h_c14_ext.cpp', flavour='fast', extra=['-DC14_GROUP=%d' % g]) for g in EXT_GROUPS])
+            [dict(name='h_c14_ext%d' % g, src='h_c14_ext.cpp', flavour='fast', extra=['-DC14_GROUP=%d' % g]) for g in EXT_GROUPS] +
+            [dict(name='h_c14_fn%d' % g, src='h_c14_fn.cpp', flavour='fast', extra=['-DC14_FN_GROUP=%d' % g]) for g in FN_GROUPS])
 
 
 # ---------------------------------------------------------------------------------------------------------------
@@ -490,9 +491,158 @@ def ext_cases(tier, rng):
         yield Case('c14_alias ids=%s' % fmt(ids), 'h_c14_ext1', oracle='ok %d' % r, tags=['alias'])
 
 
+# ---------------------------------------------------------------------------------------------------------------
+# functors of array/functional vs direct view calls
+# ---------------------------------------------------------------------------------------------------------------
+def fleaf(shape, j, data):
+    n = prod(shape); k = np.arange(n)
+    if data == 'cond' and j == 0:
+        return (k % 3 != 1).astype(np.int64).reshape(shape)
+    if data == 'float':
+        return (0.25 * ((k * 7 + 3 * j) % 11) - 1.0).reshape(shape)
+    if data == 'fpos':
+        return (0.25 * ((k * 7 + 3 * j) % 11)).reshape(shape)
+    return (k + 1000 * j).astype(np.int64).reshape(shape)
+
+
+def softmax_np(x, axis):
+    e = np.exp(x - np.max(x, axis=axis, keepdims=True)); return e / e.sum(axis=axis, keepdims=True)
+
+
+def pool_np(x, k, st, f):
+    h, w = x.shape[-2:]
+    oh, ow = (h - k[0]) // st[0] + 1, (w - k[1]) // st[1] + 1
+    out = np.empty(x.shape[:-2] + (oh, ow))
+    for i in range(oh):
+        for j in range(ow):
+            out[..., i, j] = f(x[..., i * st[0]:i * st[0] + k[0], j * st[1]:j * st[1] + k[1]], axis=(-2, -1))
+    return out
+
+
+def _fn_table():
+    T = {}
+
+    def add(name, group, n, ref, gen, data='prov'):
+        T[name] = dict(group=group, n=n, ref=ref, gen=gen, data=data)
+    one = lambda rng: ([rshape(rng)], {})
+    def g_tr(rng):
+        s = rshape(rng); return [s], dict(axes=perm(rng, len(s)))
+    def g_axis(rng):
+        s = rshape(rng); return [s], dict(axis=rng.randrange(len(s)))
+    def g_axis2(rng):
+        s = rshape(rng, min_rank=2); return [s], dict(axis=rng.randrange(len(s)))
+    def g_bin(rng):
+        s = rshape(rng); t = bpartner(rng, s); return ([s, t] if rng.random() < 0.5 else [t, s]), {}
+    add('transpose', 1, 1, lambda x, p: np.transpose(x[0], p['axes']), g_tr)
+    add('flip', 1, 1, lambda x, p: np.flip(x[0], p['axis']), g_axis)
+    add('tile', 1, 1, lambda x, p: np.tile(x[0], p['reps']), lambda rng: (lambda s: ([s], dict(reps=[rng.randint(1, 2) for _ in range(rng.randint(1, len(s) + 1))])))(rshape(rng, cap=12)))
+    add('repeat', 1, 1, lambda x, p: np.repeat(x[0], p['r'], p['axis']), lambda rng: (lambda s: ([s], dict(r=rng.randint(1, 3), axis=rng.randrange(len(s)))))(rshape(rng, cap=16)))
+    add('expand_dims', 1, 1, lambda x, p: np.expand_dims(x[0], p['axis']), lambda rng: (lambda s: ([s], dict(axis=rng.randint(0, len(s)))))(rshape(rng, max_rank=3)))
+    def g_squeeze(rng):
+        s = rshape(rng); s[rng.randrange(len(s))] = 1
+        if all(e == 1 for e in s):
+            s.append(rng.randint(2, 4))
+        return [s], {}
+    add('squeeze', 1, 1, lambda x, p: np.squeeze(x[0]), g_squeeze)
+    add('flatten', 1, 1, lambda x, p: x[0].reshape(-1), one)
+    add('moveaxis', 1, 1, lambda x, p: np.moveaxis(x[0], p['src'], p['dst']), lambda rng: (lambda s: ([s], dict(src=rng.randrange(len(s)), dst=rng.randrange(len(s)))))(rshape(rng, min_rank=2)))
+    add('atleast_2d', 1, 1, lambda x, p: np.atleast_2d(x[0]), lambda rng: ([rshape(rng, max_rank=3)], {}))
+    def g_reshape(rng):
+        s = rshape(rng); n = prod(s); d = rng.choice([x for x in range(1, n + 1) if n % x == 0]); return [s], dict(to=[d, n // d])
+    add('reshape', 1, 1, lambda x, p: x[0].reshape(p['to']), g_reshape)
+    add('broadcast_to', 1, 1, lambda x, p: np.broadcast_to(x[0], p['to']), lambda rng: (lambda t: ([bpartner(rng, t)], dict(to=t)))(rshape(rng)))
+    def g_concat(rng):
+        s = rshape(rng, cap=18); ax = rng.randrange(len(s)); t = list(s); t[ax] = rng.randint(1, 3); return [s, t], dict(axis=ax)
+    add('concatenate', 1, 2, lambda x, p: np.concatenate([x[0], x[1]], p['axis']), g_concat)
+    def g_hstack(rng):
+        s = rshape(rng, cap=18); ax = 0 if len(s) == 1 else 1; t = list(s); t[ax] = rng.randint(1, 3); return [s, t], {}
+    add('hstack', 1, 2, lambda x, p: np.hstack([x[0], x[1]]), g_hstack)
+    def g_vstack(rng):
+        s = rshape(rng, cap=18)
+        if len(s) == 1:
+            return [s, list(s)], {}
+        t = list(s); t[0] = rng.randint(1, 3); return [s, t], {}
+    add('vstack', 1, 2, lambda x, p: np.vstack([x[0], x[1]]), g_vstack)
+    add('where', 1, 3, lambda x, p: np.where(x[0] != 0, x[1], x[2]), lambda rng: (lambda s: ([bpartner(rng, s), s, bpartner(rng, s)], {}))(rshape(rng, cap=24)), data='cond')
+    add('add', 2, 2, lambda x, p: x[0] + x[1], g_bin)
+    add('multiply', 2, 2, lambda x, p: x[0] * x[1], g_bin)
+    add('subtract', 2, 2, lambda x, p: x[0] - x[1], g_bin)
+    add('maximum', 2, 2, lambda x, p: np.maximum(x[0], x[1]), g_bin)
+    add('negative', 2, 1, lambda x, p: -x[0], one)
+    add('reduce_add', 2, 1, lambda x, p: np.sum(x[0], axis=p['axis']), g_axis2)
+    add('reduce_add_keep', 2, 1, lambda x, p: np.sum(x[0], axis=p['axis'], keepdims=True), g_axis2)
+    add('reduce_maximum', 2, 1, lambda x, p: np.max(x[0], axis=p['axis']), g_axis2)
+    add('accumulate_add', 2, 1, lambda x, p: np.cumsum(x[0], axis=p['axis']), g_axis)
+    g_outer = lambda rng: ([rshape(rng, max_rank=2, cap=8), rshape(rng, max_rank=2, cap=8)], {})
+    add('outer_add', 2, 2, lambda x, p: np.add.outer(x[0], x[1]), g_outer)
+    add('outer_multiply', 2, 2, lambda x, p: np.multiply.outer(x[0], x[1]), g_outer)
+    add('matmul', 2, 2, lambda x, p: np.matmul(x[0], x[1]), lambda rng: (lambda m, k, n: ([[m, k], [k, n]], {}))(rng.randint(1, 4), rng.randint(1, 4), rng.randint(1, 4)))
+    add('sum', 2, 1, lambda x, p: np.sum(x[0], axis=p['axis']), g_axis2)
+    g_small = lambda rng: (lambda s: ([s], dict(axis=rng.randrange(len(s)))))(rshape(rng, min_rank=2, max_extent=3, cap=9))
+    add('prod', 2, 1, lambda x, p: np.prod(x[0] % 7, axis=p['axis']) if False else np.prod(x[0], axis=p['axis']), g_small)
+    add('cumsum', 2, 1, lambda x, p: np.cumsum(x[0], axis=p['axis']), g_axis)
+    add('cumprod', 2, 1, lambda x, p: np.cumprod(x[0], axis=p['axis']), g_small)
+    add('tanh', 3, 1, lambda x, p: np.tanh(x[0]), one, data='float')
+    add('exp', 3, 1, lambda x, p: np.exp(x[0]), one, data='float')
+    add('relu', 3, 1, lambda x, p: np.maximum(x[0], 0), one, data='float')
+    add('sigmoid', 3, 1, lambda x, p: 1 / (1 + np.exp(-x[0])), one, data='float')
+    add('mean', 3, 1, lambda x, p: np.mean(x[0], axis=p['axis']), g_axis2, data='float')
+    add('var', 3, 1, lambda x, p: np.var(x[0], axis=p['axis']), g_axis2, data='float')
+    add('stddev', 3, 1, lambda x, p: np.std(x[0], axis=p['axis']), g_axis2, data='float')
+    add('softmax', 3, 1, lambda x, p: softmax_np(x[0], p['axis']), g_axis2, data='float')
+    add('softmin', 3, 1, lambda x, p: softmax_np(-x[0], p['axis']), g_axis2, data='float')
+    def g_pool(rng):
+        lead = [rng.randint(1, 2) for _ in range(rng.randint(1, 2))]; h, w = rng.randint(2, 5), rng.randint(2, 5)
+        return [lead + [h, w]], dict(k=[rng.randint(1, min(2, h)), rng.randint(1, min(2, w))], st=[rng.randint(1, 2), rng.randint(1, 2)])
+    add('max_pool2d', 3, 1, lambda x, p: pool_np(x[0], p['k'], p['st'], np.max), g_pool, data='fpos')   # non-negative data: max_pool2d of negative windows gives 0 (C17's business)
+    add('avg_pool2d', 3, 1, lambda x, p: pool_np(x[0], p['k'], p['st'], np.mean), g_pool, data='fpos')
+    # divide by values away from zero: operand 1 shifted
+    return T
+
+
+FN = _fn_table()
+FN_GROUPS = [1, 2, 3]
+NFORMS = {1: 1, 2: 3, 3: 6}
+
+
+def fn_cmp(a, b):
+    """shape / splits / agree exact, data within float tolerance"""
+    if not (a.startswith('ok ') and b.startswith('ok ')):
+        return a == b
+    da, db = parse_kv(a), parse_kv(b)
+    if any(da.get(k) != db.get(k) for k in ('shape', 'splits', 'agree')):
+        return False
+    fa = np.array([float(v) for v in da['data'].split(',')]) if da['data'] != '[]' else np.array([])
+    fb = np.array([float(v) for v in db['data'].split(',')]) if db['data'] != '[]' else np.array([])
+    return fa.shape == fb.shape and bool(np.allclose(fa, fb, rtol=1e-7, atol=1e-9))
+
+
+def fn_cases(tier, rng):
+    ncase = 4 if tier == 'quick' else 30
+    for name, e in FN.items():
+        made = tries = 0
+        while made < ncase and tries < 10 * ncase:
+            tries += 1
+            shapes, params = e['gen'](rng)
+            env = [fleaf(s, j, e['data']) for j, s in enumerate(shapes)]
+            try:
+                res = np.asarray(e['ref'](env, params))
+            except ValueError:
+                continue
+            if res.size == 0 or res.size > 64 or (res.dtype.kind == 'i' and np.abs(res).max() >= 2 ** 31):
+                continue
+            made += 1
+            req = ' '.join(('c14_fn name=%s shapes=%s %s data=%s' % (name, fmt_lists(shapes), fmt_params(params), e['data'])).split())
+            data = ','.join(('%d' % v) if res.dtype.kind == 'i' else ('%.12g' % v) for v in res.reshape(-1))
+            k = NFORMS[e['n']]
+            yield Case(req, 'h_c14_fn%d' % e['group'], oracle='ok shape=%s data=%s splits=%d agree=%d' % (fmt(list(res.shape)), data, k, k),
+                       model=False, cmp=fn_cmp, nontrivial=True, tags=['fn', 'functor=' + name, 'arity=%d' % e['n']])
+
+
 def gen(tier, rng):
     yield from probe_cases(tier, rng)
     yield from ext_cases(tier, rng)
+    yield from fn_cases(tier, rng)
 
 
 def _args(c):
